@@ -69,6 +69,42 @@ def cases(tier, seed):
     return out
 
 
+def refined_leg(tier, seed):
+    """batches served by generators WHILE residual-adaptive refinement adds points (the active count grows between draws): the draw
+    clauses of Batching on the traces of the refinement driver (Trace_Rar with Prop = C09)"""
+    from .. import core, tracecheck
+    from . import _rar
+
+    cfgs = [c for c in _rar.cases(tier, seed) if c.get("mode") != "solve" and not c.get("sys")]
+    cfgs = cfgs[:: 3 if tier == "quick" else 1]
+    traces = core.run_drivers("harness.drv_rar:run_case", cfgs)
+    crashed = [t for t in traces if "tb" in t]
+    if crashed:
+        raise core.MachineryError("driver crashed: " + crashed[0]["tb"])
+    raised = [t for t in traces if t.get("codeexc")]
+    live = [t for t in traces if not t.get("codeexc") and not t.get("skipped") and not t.get("exc")]
+    if not live and not raised:
+        raise core.MachineryError("vacuous: no refinement trace for the draw clauses")
+    sc = core.Scratch("C09rar")
+    try:
+        slim = [{k: v for k, v in t.items() if k != "cfg"} for t in live]
+        rej, acc, res = tracecheck.validate("Trace_Rar", _rar.TRACE_CFG % "C09", slim, sc, "trC09rar")
+        viol = []
+        for r in rej:
+            t = live[r["tid"]]
+            viol.append(dict(clause="Refined_" + r["clause"], sig=dict(leg="refined", **_dg.sig_of(t["cfg"], "")), detail=f"event {r['ev']}",
+                             driver="harness.drv_rar:run_case", cfg=t["cfg"], record=t))
+        for t in raised:
+            viol.append(dict(clause="Refined_GeneratorRaised", sig=dict(leg="refined", **_dg.sig_of(t["cfg"], "")), detail=t["codeexc"],
+                             driver="harness.drv_rar:run_case", cfg=t["cfg"], record=t))
+        steps = sum(1 for t in live for e in t["ev"] if e["stepped"])
+        if live and not steps:
+            raise core.MachineryError("vacuous: no refinement step in the refined-draw traces")
+        return viol, dict(refined_traces=len(live), refined_traces_accepted=acc, refined_draws=sum(len(t["ev"]) for t in live), refinement_steps_in_them=steps)
+    finally:
+        sc.cleanup()
+
+
 def run(tier, seed):
     maxn = 5 if tier == "quick" else 6
     mc = [
@@ -78,7 +114,7 @@ def run(tier, seed):
              expect=("fail", "NoRepeatWhenDivides"), workers=4),
     ]
     return _dg.run(
-        "C09", tier, seed, mc=mc, cfgs=cases(tier, seed),
+        "C09", tier, seed, mc=mc, cfgs=cases(tier, seed), extra_leg=refined_leg,
         apalache=("CursorInd", [("Init=>IndInv", "Init", "IndInv", 0), ("IndInv inductive", "IndInit", "IndInv", 1),
                                 ("IndInv=>NoClampWhenDivides", "IndInit", "NoClampWhenDivides", 0)]),
         rule="MC: Batching.tla all 1<=B<=N<=MaxN, all active prefixes, all permutations at every reshuffle; "
